@@ -195,6 +195,10 @@ class Codec:
             logging.error(f"*** BodyLength missing or not 2nd field *** [{tag}]: {msg}")
             assert silent, "2nd tag must be BodyLength"
             return (None, len(rawmsg), None)
+        elif not (value.isascii() and value.isdigit()):
+            logging.error(f"*** BodyLength is not a number *** [{value}]: {msg}")
+            assert silent, "BodyLength must be a number"
+            return (None, len(rawmsg), None)
         else:
             msg_length += int(value)
 
